@@ -147,8 +147,89 @@ def w_correctable(cfg, tier):
     return col.result()
 
 
+def w_second(cfg, tier):
+    """A second matching decoder built in the same process for another noise model (same code, same rate,
+    same direction, other deformation axis / undeformed): its matchers must carry ITS OWN log-likelihood
+    weights and matrices."""
+    mods = _install()
+    md, pem = mods['md'], mods['pem']
+    parts = cfg.split(' ')
+    cls_name, size, name, axis = common.parse_cfg(parts[1])
+    axis2 = parts[2]
+    import panqec.codes as pc
+    code = getattr(pc, cls_name)(*size)
+    n = code.n
+    col = hz.Collector(cfg)
+    col.encoded(md.MatchingDecoder.__init__, mods['bem'].BaseErrorModel.get_weights)
+    P = pem.PauliErrorModel
+    kwA = {'deformation_axis': axis} if axis else {}
+    kwB = {'deformation_axis': axis2} if axis2 not in ('none', '-') else {}
+    nameB = None if axis2 == 'none' else name
+    qc = list(code.qubit_coordinates)
+    dB = [code.get_deformation(q, nameB, **kwB) if nameB else {s_: s_ for s_ in 'XYZ'} for q in qc]
+    old = md.Matching
+    md.Matching = MatchStub
+    eng = Engine(name=cfg)
+    eng.format_mode = 'placeholder'
+    try:
+        with eng:
+            rx, ry = eng.real('rx', 0, 1), eng.real('ry', 0, 1)
+            rz = SymReal(1 - rx.t - ry.t)
+            eng.assume_base(rz.t >= 0)
+
+            def fn():
+                P.probability_distribution.cache_clear()
+                A = P.__new__(P)
+                A._direction, A._deformation_name, A._deformation_kwargs = (rx, ry, rz), name, dict(kwA)
+                B = P.__new__(P)
+                B._direction, B._deformation_name, B._deformation_kwargs = (rx, ry, rz), nameB, dict(kwB)
+                md.MatchingDecoder(code, A, 0.25)
+                dec = md.MatchingDecoder(code, B, 0.25)
+                return dec
+            ps = eng.explore(fn)
+    finally:
+        md.Matching = old
+        P.probability_distribution.cache_clear()
+    col.absorb(eng)
+    with eng:       # spec terms are built with the same proxy operations as the library (needs a session)
+        quarter = z3.RealVal('1/4')
+        r = {'X': rx.t, 'Y': ry.t, 'Z': rz.t}
+        bad = []
+        for p in ps:
+            if p.exc is not None:
+                col.record('C09/second-decoder/no-exception', 'sat', 0, True, None, f'{type(p.exc).__name__}: {p.exc}')
+                continue
+            dec = p.value
+            d = [z3.BoolVal((dec.matcher_x.H != code.Hz).nnz != 0 or (dec.matcher_z.H != code.Hx).nnz != 0)]
+            for stub, letter in ((dec.matcher_x, 'X'), (dec.matcher_z, 'Z')):
+                w = [term_of(x, 'real') for x in np.asarray(stub.weights).reshape(-1)]
+                for i in range(n):
+                    m_ = SymReal(quarter * r[dB[i][letter]]) + SymReal(quarter * r[dB[i]['Y']])
+                    want = term_of(-(((m_ + EPS) / (1 - m_ + EPS)).log()), 'real')
+                    # same uninterpreted ln: equal iff the arguments are equal (cross-multiplied, polynomial)
+                    if z3.is_app(w[i]) and z3.is_app(want):
+                        a1 = w[i].arg(0).arg(0) if w[i].decl().kind() == z3.Z3_OP_UMINUS else None
+                        a2 = want.arg(0).arg(0) if want.decl().kind() == z3.Z3_OP_UMINUS else None
+                    else:
+                        a1 = a2 = None
+                    if a1 is None or a2 is None:
+                        d.append(w[i] != want)
+                    else:
+                        d.append(z3.simplify(a1 - a2, som=True) != 0 if not (z3.is_app(a1) and a1.decl().kind() == z3.Z3_OP_DIV)
+                                 else a1.arg(0) * a2.arg(1) != a2.arg(0) * a1.arg(1))
+            bad.append(z3_and(p.pc + [z3_or(d)]))
+
+    def wit(m):
+        return dict(rx=str(model_frac(m, rx.t)), ry=str(model_frac(m, ry.t)), second=True)
+    col.prove('C09/second-decoder/carries-its-own-weights-and-matrices', eng.base +
+              [rx.t + ry.t > 0, rz.t + ry.t > 0], z3_or(bad), wit,
+              'decoder for model B built after a decoder for model A (other deformation axis) on the same code and rate',
+              timeout_ms=120000)
+    return col.result()
+
+
 def worker(cfg, tier='quick'):
-    return {'optimal': w_optimal, 'correctable': w_correctable}[cfg.split()[0]](cfg, tier)
+    return {'optimal': w_optimal, 'correctable': w_correctable, 'second': w_second}[cfg.split()[0]](cfg, tier)
 
 
 def replay(path):
@@ -162,6 +243,36 @@ def replay(path):
     n = code.n
     bad = False
     try:
+        if cfg.startswith('second'):
+            # real PyMatching: build A then B, compare B's edge weights with B's own get_weights()
+            import panqec.codes as pc
+            parts = cfg.split(' ')
+            cls_name, size, name, axis = common.parse_cfg(parts[1])
+            axis2 = parts[2]
+            code = getattr(pc, cls_name)(*size)
+            n = code.n
+            kwA = {'deformation_axis': axis} if axis else {}
+            kwB = {'deformation_axis': axis2} if axis2 not in ('none', '-') else {}
+            nameB = None if axis2 == 'none' else name
+            for d_ in [(float(Fraction(w['rx'])), float(Fraction(w['ry']))), (0.1, 0.1), (0.8, 0.1)]:
+                rz_ = 1 - d_[0] - d_[1]
+                A = PauliErrorModel(d_[0], d_[1], rz_, deformation_name=name, deformation_kwargs=kwA)
+                B = PauliErrorModel(d_[0], d_[1], rz_, deformation_name=nameB, deformation_kwargs=kwB)
+                MatchingDecoder(code, A, 0.25)
+                decB = MatchingDecoder(code, B, 0.25)
+                wx, wz = B.get_weights(code, 0.25)
+                for matcher, want in ((decB.matcher_x, wx), (decB.matcher_z, wz)):
+                    got = {}
+                    for u, v, attr in matcher.edges():
+                        for f_ in attr['fault_ids']:
+                            got[f_] = attr['weight']
+                    if any(abs(got.get(i, want[i]) - want[i]) > 1e-9 for i in range(n)):
+                        print('direction', d_, 'edge weights of the second decoder differ from its own LLR weights')
+                        bad = True
+                if bad:
+                    break
+            print('REPLAY', 'reproduced' if bad else 'not-reproduced', oid, cfg)
+            return 0
         e = np.array(w['error'], dtype=np.uint8)
         if cfg.startswith('correctable'):
             dec = MatchingDecoder(code, PauliErrorModel(1 / 3, 1 / 3, 1 / 3), 0.1, weights=(np.ones(n), np.ones(n)))
@@ -228,7 +339,8 @@ def configs(tier):
         opt += ['Toric2DCode(2,3)', 'Planar2DCode(3,3)', 'Toric2DCode(3,3)']
         cor += ['Planar2DCode(4,4)', 'RotatedPlanar2DCode(4,4)', 'RotatedPlanar2DCode(5,5)', 'Planar2DCode(5,5)',
                 'Toric2DCode(5,5)', 'RotatedPlanar2DCode(5,4)']
-    return [f'optimal {c}' for c in opt] + [f'correctable {c}' for c in cor]
+    sec = ['Toric2DCode(2,2)/XZZX/x y', 'Planar2DCode(2,3)/XZZX/y x', 'RotatedPlanar2DCode(3,3)/XZZX/x none']
+    return [f'optimal {c}' for c in opt] + [f'correctable {c}' for c in cor] + [f'second {c}' for c in sec]
 
 
 def main(argv=None):
